@@ -1,9 +1,12 @@
-import SockModel.Model.UriLemmas
+import SockModel.Model.UriSpellLemmas
+import SockModel.Spec.Uri
 import SockModel.Generated.Funcs
 /-!
 # C12  Address text round-trip, canonical accessors and port fidelity
 
-Property theorems only (helpers live in `Model/UriLemmas.lean`, `Basic/Decimal.lean`).
+Property theorems only (helpers live in `Model/UriLemmas.lean`, `Basic/Decimal.lean`; the proofs of the
+spelling / round-trip / no-wrap theorems live in `Model/UriSpellLemmas.lean`, namespace `Lem`, because
+`Spec/Uri.lean` needs them too - the theorems here keep their names and statements).
 The neighbours `getaddrinfo` / `getnameinfo` are not modelled; the statements are about what
 the library hands to `getaddrinfo` (`GaiCall`: node, service, AI_NUMERICSERV).  Assumptions
 used to read them as statements about `Address` values, exercised by the check on every run
@@ -22,16 +25,8 @@ open SockModel.Decimal
 pure digit string (no sign, no blank), and `strtoul` reads it completely as `p` -/
 theorem render_parse (p : Nat) :
     parseDec (render p) = some p ∧ isDigits (render p) = true ∧
-    (p < 2 ^ 64 → strtoulReads (render p) = some p) := by
-  have hd := isDigits_render p
-  refine ⟨by simp [parseDec, hd, decVal_render], hd, ?_⟩
-  intro hp
-  have hcap : cap64 = 18446744073709551616 := by decide
-  have hm : satVal cap64 (render p) = p := by
-    rw [satVal_eq, decVal_render, hcap]; omega
-  simp only [strtoulReads, dropWhile_isSpace_of_digits hd, signSplit_of_digits hd, hd, if_true, hm]
-  have : ¬ p ≥ cap64 := by rw [hcap]; omega
-  simp [this]
+    (p < 2 ^ 64 → strtoulReads (render p) = some p) :=
+  Lem.render_parse p
 
 /-- "all documented spellings - "h:p" or "[h]:p", with a scheme prefix and/or a path suffix, the
 pair (h, "p") - produce the same Address": for every host text `h` without ':' and '/', not
@@ -49,56 +44,13 @@ theorem spellings_agree (h scheme path : Bytes) (p : Nat) (hp : p < 65536)
     dissect (h ++ 0x3a :: d ++ 0x2f :: path) = want ∧
     dissect (scheme ++ 0x3a :: 0x2f :: 0x2f :: (0x5b :: (h ++ 0x5d :: 0x3a :: d) ++ 0x2f :: path)) = want ∧
     parseHostServ h d = .ok ⟨cstr h, d, false⟩ ∧
-    parseUri (h ++ 0x3a :: d) = .ok ⟨cstr h, d, true⟩ := by
-  intro d want
-  have hd : isDigits d = true := isDigits_render p
-  have hplain := splitPort_plain hne hc hb hd
-  have hbr := splitPort_bracket hl hd
-  have tail0 : ([] : Bytes) = [] ∨ ∃ q, ([] : Bytes) = 0x2f :: q ∧ hasLineBreak q = false := Or.inl rfl
-  have tailp : (0x2f :: path) = [] ∨ ∃ q, (0x2f :: path) = 0x2f :: q ∧ hasLineBreak q = false :=
-    Or.inr ⟨path, rfl, hpath⟩
-  have e1 : dissect (h ++ 0x3a :: d) = want := by
-    have := (trim_plain hc hs hd tail0).1
-    rw [List.append_nil] at this
-    exact dissect_numeric hp this hplain
-  refine ⟨e1, ?_, ?_, ?_, ?_, ?_, ?_⟩
-  · have := (trim_bracket hs hd tail0).1
-    rw [List.append_nil] at this
-    exact dissect_numeric hp this hbr
-  · have htp := (trim_plain hc hs hd tail0).2
-    rw [List.append_nil] at htp
-    exact dissect_numeric hp (trimServAndPath_scheme hw htp) hplain
-  · exact dissect_numeric hp (trim_plain hc hs hd tailp).1 hplain
-  · exact dissect_numeric hp (trimServAndPath_scheme hw (trim_bracket hs hd tailp).2) hbr
-  · have hne' : h.isEmpty = false := by cases h <;> simp at hne ⊢
-    have hdne : d.isEmpty = false := by
-      cases hdd : d with
-      | nil => rw [hdd] at hd; simp [isDigits] at hd
-      | cons _ _ => rfl
-    simp [parseHostServ, hne', hdne, isServiceNumeric_of_digits hd, checkRange_render hp, Except.map,
-      cstr_of_digits hd, d]
-  · have hne' : (h ++ 0x3a :: d).isEmpty = false := by cases h <;> simp
-    simp only [parseUri, hne', Bool.false_eq_true, if_false, e1, want]
-    simp [Except.map, Dissect.toGai, cstr_of_digits hd]
+    parseUri (h ++ 0x3a :: d) = .ok ⟨cstr h, d, true⟩ :=
+  Lem.spellings_agree h scheme path p hp hne hc hs hb hl hw hpath
 
 /-- no scheme is recognised in `h/rest` when `h` has no colon (whatever `rest` contains - "://" included) -/
 theorem trimServAndPath_hostpath {h rest : Bytes} (hc : (0x3a : UInt8) ∉ h) :
-    trimServAndPath (h ++ 0x2f :: rest) = (trimPath (h ++ 0x2f :: rest)).map (·, []) := by
-  unfold trimServAndPath
-  have htw : (h ++ 0x2f :: rest).takeWhile isWord = h.takeWhile isWord :=
-    takeWhile_append_stop (by decide) h
-  have hdrop : (h ++ 0x2f :: rest).drop (h.takeWhile isWord).length = h.dropWhile isWord ++ 0x2f :: rest := by
-    conv => lhs; arg 2; rw [← List.takeWhile_append_dropWhile (p := isWord) (l := h)]
-    rw [List.append_assoc, List.drop_left]
-  simp only [htw, hdrop]
-  have hno : ((h.dropWhile isWord ++ 0x2f :: rest).take 3 == [0x3a, 0x2f, 0x2f]) = false := by
-    cases hd : h.dropWhile isWord with
-    | nil => simp
-    | cons x xs =>
-      have hx : x ∈ h := mem_of_mem_dropWhile (p := isWord) (by rw [hd]; exact List.mem_cons_self ..)
-      have : x ≠ 0x3a := by intro e; subst e; exact hc hx
-      simp [this]
-  simp [hno]
+    trimServAndPath (h ++ 0x2f :: rest) = (trimPath (h ++ 0x2f :: rest)).map (·, []) :=
+  Lem.trimServAndPath_hostpath hc
 
 /-- the documented spelling WITHOUT a service, "host/path": for every host text `h` without ':' and '/'
 (non-empty) and EVERY single-line path - free text that may itself contain colons, ports, brackets and
@@ -106,39 +58,8 @@ theorem trimServAndPath_hostpath {h rest : Bytes} (hc : (0x3a : UInt8) ∉ h) :
 the same `(h, no service)` as the bare host, and that is what reaches `getaddrinfo` -/
 theorem hostpath_spelling (h path : Bytes) (hne : h ≠ []) (hc : (0x3a : UInt8) ∉ h) (hs : (0x2f : UInt8) ∉ h)
     (hpath : hasLineBreak path = false) :
-    dissect (h ++ 0x2f :: path) = .ok ⟨h, [], false⟩ ∧ dissect h = .ok ⟨h, [], false⟩ := by
-  have hsplit : splitPort h = none := by
-    unfold splitPort
-    rw [splitLast_none hc]
-  have hnum : isServiceNumeric [] = false := by decide
-  have hguard : guardRange ⟨h, [], false⟩ = .ok ⟨h, [], false⟩ := by
-    simp [guardRange, hnum]
-  constructor
-  · have htp : trimPath (h ++ 0x2f :: path) = some h :=
-      trimPath_eval hs hne (Or.inr ⟨path, rfl, hpath⟩)
-    have ht : trimServAndPath (h ++ 0x2f :: path) = some (h, []) := by
-      rw [trimServAndPath_hostpath hc, htp]; rfl
-    simp only [dissect, dissectRaw, ht, hsplit, hguard]
-  · have htp : trimPath h = some h := by
-      have := trimPath_eval (a := h) (tail := []) hs hne (Or.inl rfl)
-      rwa [List.append_nil] at this
-    have ht : trimServAndPath h = some (h, []) := by
-      have hh : trimServAndPath h = (trimPath h).map (·, []) := by
-        unfold trimServAndPath
-        have hno : (((h.drop (h.takeWhile isWord).length)).take 3 == [0x3a, 0x2f, 0x2f]) = false := by
-          have hd : h.drop (h.takeWhile isWord).length = h.dropWhile isWord := by
-            conv => lhs; arg 2; rw [← List.takeWhile_append_dropWhile (p := isWord) (l := h)]
-            rw [List.drop_left]
-          rw [hd]
-          cases hdw : h.dropWhile isWord with
-          | nil => simp
-          | cons x xs =>
-            have hx : x ∈ h := mem_of_mem_dropWhile (p := isWord) (by rw [hdw]; exact List.mem_cons_self ..)
-            have : x ≠ 0x3a := by intro e; subst e; exact hc hx
-            simp [this]
-        simp [hno]
-      rw [hh, htp]; rfl
-    simp only [dissect, dissectRaw, ht, hsplit, hguard]
+    dissect (h ++ 0x2f :: path) = .ok ⟨h, [], false⟩ ∧ dissect h = .ok ⟨h, [], false⟩ :=
+  Lem.hostpath_spelling h path hne hc hs hpath
 
 /-- non-vacuity / the input class of the seeded change C12_2_agentG: the first colon of the string is the
 one of "://" inside the query -/
@@ -158,25 +79,8 @@ theorem spellings_agree_v6 (h6 scheme path : Bytes) (p : Nat) (hp : p < 65536)
     dissect (scheme ++ 0x3a :: 0x2f :: 0x2f :: (0x5b :: (h6 ++ 0x5d :: 0x3a :: d))) = want ∧
     dissect (0x5b :: (h6 ++ 0x5d :: 0x3a :: d) ++ 0x2f :: path) = want ∧
     dissect (scheme ++ 0x3a :: 0x2f :: 0x2f :: (0x5b :: (h6 ++ 0x5d :: 0x3a :: d) ++ 0x2f :: path)) = want ∧
-    parseHostServ h6 d = .ok ⟨cstr h6, d, false⟩ := by
-  intro d want
-  have hd : isDigits d = true := isDigits_render p
-  have hbr := splitPort_bracket hl hd
-  have tail0 : ([] : Bytes) = [] ∨ ∃ q, ([] : Bytes) = 0x2f :: q ∧ hasLineBreak q = false := Or.inl rfl
-  have tailp : (0x2f :: path) = [] ∨ ∃ q, (0x2f :: path) = 0x2f :: q ∧ hasLineBreak q = false :=
-    Or.inr ⟨path, rfl, hpath⟩
-  have t0 := trim_bracket hs hd tail0
-  rw [List.append_nil] at t0
-  refine ⟨dissect_numeric hp t0.1 hbr, dissect_numeric hp (trimServAndPath_scheme hw t0.2) hbr,
-    dissect_numeric hp (trim_bracket hs hd tailp).1 hbr,
-    dissect_numeric hp (trimServAndPath_scheme hw (trim_bracket hs hd tailp).2) hbr, ?_⟩
-  have hne' : h6.isEmpty = false := by cases h6 <;> simp at hne ⊢
-  have hdne : d.isEmpty = false := by
-    cases hdd : d with
-    | nil => rw [hdd] at hd; simp [isDigits] at hd
-    | cons _ _ => rfl
-  simp [parseHostServ, hne', hdne, isServiceNumeric_of_digits hd, checkRange_render hp, Except.map,
-    cstr_of_digits hd, d]
+    parseHostServ h6 d = .ok ⟨cstr h6, d, false⟩ :=
+  Lem.spellings_agree_v6 h6 scheme path p hp hne hs hl hw hpath
 
 /-- "to_string() ("h:p" / "[h]:p") parses back to an equal Address": the text composed by
 `to_string` from the canonical host `h` and the decimal port is dissected back to exactly
@@ -186,21 +90,8 @@ for any host without '/' and line terminators in the bracketed form.  With G1/G2
 theorem tostring_roundtrip (v6 : Bool) (h : Bytes) (p : Nat) (hp : p < 65536)
     (hs : (0x2f : UInt8) ∉ h) (hl : hasLineBreak h = false)
     (h4 : v6 = false → h ≠ [] ∧ (0x3a : UInt8) ∉ h ∧ h.head? ≠ some 0x5b) :
-    dissect (toString v6 h (render p)) = .ok ⟨h, render p, true⟩ := by
-  have hd : isDigits (render p) = true := isDigits_render p
-  have tail0 : ([] : Bytes) = [] ∨ ∃ q, ([] : Bytes) = 0x2f :: q ∧ hasLineBreak q = false := Or.inl rfl
-  cases v6
-  · obtain ⟨hne, hc, hb⟩ := h4 rfl
-    have := (trim_plain hc hs hd tail0).1
-    rw [List.append_nil] at this
-    have hshape : toString false h (render p) = h ++ 0x3a :: render p := by simp [toString]
-    rw [hshape]
-    exact dissect_numeric hp this (splitPort_plain hne hc hb hd)
-  · have := (trim_bracket hs hd tail0).1
-    rw [List.append_nil] at this
-    have hshape : toString true h (render p) = 0x5b :: (h ++ 0x5d :: 0x3a :: render p) := by simp [toString]
-    rw [hshape]
-    exact dissect_numeric hp this (splitPort_bracket hl hd)
+    dissect (toString v6 h (render p)) = .ok ⟨h, render p, true⟩ :=
+  Lem.tostring_roundtrip v6 h p hp hs hl h4
 
 /-- "A numeric port outside 0..65535 is rejected by an exception in every spelling, never silently
 wrapped": for EVERY input - URI or pair, any bytes - if `getaddrinfo` is reached with a service
@@ -208,87 +99,14 @@ that `strtoul` reads completely (blanks, sign, digits to the end of the C string
 reads is a port.  So every out-of-range numeric service was answered by an exception before the
 lookup, in every position: after the colon, as the scheme, as the service argument with sign or
 blanks ("-0" passes as 0, "-1" is rejected). -/
-theorem no_silent_wrap : NoSilentWrap parseUri parseHostServ := by
-  constructor
-  · intro uri c v hok hv
-    unfold parseUri at hok
-    split at hok
-    · cases hok
-    · cases hd : dissect uri with
-      | error e => rw [hd] at hok; cases hok
-      | ok d =>
-        rw [hd] at hok
-        have hc : c = d.toGai := by cases hok; rfl
-        subst hc
-        have hv' : strtoulReads (cstr d.serv) = some v := hv
-        have hnum := numeric_of_strtoul hv'
-        have hraw := dissect_ok_raw hd
-        have hg : guardRange d = .ok d := by
-          have := hd
-          unfold dissect at this
-          simpa only [hraw] using this
-        exact strtoul_in_range_of_checked (guardRange_ok_checked hg (Or.inr hnum)) hv'
-  · intro host serv c v hok hv
-    unfold parseHostServ at hok
-    split at hok
-    · cases hok
-    · split at hok
-      · cases hok
-      · split at hok
-        · rename_i hnum
-          cases hc : checkRange serv with
-          | error e => rw [hc] at hok; cases hok
-          | ok u =>
-            rw [hc] at hok
-            have : c = ⟨cstr host, cstr serv, false⟩ := by cases hok; rfl
-            subst this
-            exact strtoul_in_range_of_checked hc hv
-        · rename_i hnum
-          have : c = ⟨cstr host, cstr serv, false⟩ := by cases hok; rfl
-          subst this
-          exact absurd (numeric_of_strtoul hv) hnum
+theorem no_silent_wrap : NoSilentWrap parseUri parseHostServ :=
+  Lem.no_silent_wrap
 
 /-- the strict form of the same statement, without `strtoul`'s modulo: the number as written
 (sign applied) is itself in 0..65535 - so "-18446744073709551615" (which `strtoul` would read as 1)
 is rejected as well, and a minus sign is only accepted in front of zero -/
-theorem no_silent_wrap_strict : NoSilentWrapStrict parseUri parseHostServ := by
-  constructor
-  · intro uri c neg m hok hv
-    unfold parseUri at hok
-    split at hok
-    · cases hok
-    · cases hd : dissect uri with
-      | error e => rw [hd] at hok; cases hok
-      | ok d =>
-        rw [hd] at hok
-        have hc : c = d.toGai := by cases hok; rfl
-        subst hc
-        have hv' : numericReads (cstr d.serv) = some (neg, m) := hv
-        have hnum := numeric_of_numericReads hv'
-        have hraw := dissect_ok_raw hd
-        have hg : guardRange d = .ok d := by
-          have := hd
-          unfold dissect at this
-          simpa only [hraw] using this
-        exact numeric_in_range_of_checked (guardRange_ok_checked hg (Or.inr hnum)) hv'
-  · intro host serv c neg m hok hv
-    unfold parseHostServ at hok
-    split at hok
-    · cases hok
-    · split at hok
-      · cases hok
-      · split at hok
-        · cases hc : checkRange serv with
-          | error e => rw [hc] at hok; cases hok
-          | ok u =>
-            rw [hc] at hok
-            have : c = ⟨cstr host, cstr serv, false⟩ := by cases hok; rfl
-            subst this
-            exact numeric_in_range_of_checked hc hv
-        · rename_i hnum
-          have : c = ⟨cstr host, cstr serv, false⟩ := by cases hok; rfl
-          subst this
-          exact absurd (numeric_of_numericReads hv) hnum
+theorem no_silent_wrap_strict : NoSilentWrapStrict parseUri parseHostServ :=
+  Lem.no_silent_wrap_strict
 
 /-- port fidelity under assumption G1: whatever resolver `gai` maps a completely-read numeric
 service `v` to port `v mod 2^16`, the port of the result is `v` itself - nothing was wrapped -/
@@ -299,6 +117,26 @@ theorem port_not_wrapped_under_G1 (gai : GaiCall → Option Nat)
   have := no_silent_wrap.1 uri c v hok hv
   rw [G1 c v port hv hg]
   omega
+
+namespace C12
+/-- the predicate `./check C12` evaluates on the implementation's observations (`Spec/Uri.lean`: `specStep`
+in mode `.fidelity` - no numeric service outside 0..65535 reaches `getaddrinfo`; `Port()` is the numeric
+service; `Service()` its decimal text; `to_string` is `host:serv` / `[host]:serv` and parses back to an equal
+Address; every spelling of a literal endpoint is accepted, reports the ground-truth host / port / family and
+all are equal) accepts every trace of the model - `parseUri` / `parseHostServ` / `Addr.toString` over a name
+service `ns` - for EVERY `ns` that satisfies the assumptions G1 / G2 (`NameService.Lawful`; satisfiable:
+`toyNS_lawful`) and every history of any length in the domain `histOk` (`uri` / `pair` with arbitrary byte
+strings; literal groups of addresses the resolver knows by their numeric text, with `\w*` schemes and
+single-line paths; service names the database maps to the port). -/
+theorem spec_holds_on_model {α : Type} [DecidableEq α] (ns : NameService α) (L : ns.Lawful)
+    (history : List (Op α)) (hok : histOk ns history = true) :
+    ∃ s, C12.specRun {} (modelTrace ns history) = .ok s :=
+  C12.model_satisfies_spec ns L history hok
+
+/-- the hypotheses of `spec_holds_on_model` are satisfiable: a concrete resolver is lawful and a history with
+every kind of operation is in the domain -/
+example : toyNS.Lawful ∧ histOk toyNS Demo.history = true := ⟨toyNS_lawful, by decide⟩
+end C12
 
 /-- the pre-fix code (finding F5) did wrap: a numeric scheme is never checked -/
 theorem legacy_wraps_scheme :
